@@ -16,10 +16,10 @@ prop("C07", pkg="c07", vlimit_gb=16,
                 "allocate more than 64 MiB; every insertion of well-formed undeclared fields decoded to the same value as the original encoding; Scan reported exactly the "
                 "(number, wire type, payload, value) list of a protowire walk and erred exactly when that walk erred (inputs containing group wire types excluded).",
      level_note="Exhaustive over the prefixes of each sampled encoding, sampled elsewhere. Trusted base: harness/pgen (builder, wire walker, comparer), protowire, the Go toolchain. "
-                "No native fuzzing campaign is run (FuzzProtoUnmarshal of DESIGN was not built). Known-finding classes are excluded and counted in excluded_known; while the class "
-                "repeated-over-10-elements is listed the garbage collector only runs between cases (see quiesceGC in the package).",
+                "No native fuzzing campaign is run (FuzzProtoUnmarshal of DESIGN was not built). The four defect classes this check found (KF-C07-001 repaired by 59a4758, -002 by f520591, "
+                "-003 by 4eb59c8, -004 by 8ad6b3b) are 'fixed': nothing is excluded, the garbage collector runs normally (quiesceGC is inert), and their witnesses run as regression cases.",
      assumptions=["the reference field walk uses protowire's primitives but does not restrict field numbers (the statement does not); inputs whose top level contains a group wire type (3, 4) are not compared",
                   "the zero-length entry that the library writes for an empty/nil map (and reads back as 'no entry') is not treated as a message into which unknown fields are inserted",
-                  "unknown-field numbers avoid the declared numbers both in full and truncated to 16 bits (the decoder sees declared numbers modulo 65536)",
+                  "unknown-field numbers avoid the declared numbers both in full and truncated to 16 bits (conservative: before 63d287d the decoder saw declared numbers modulo 65536)",
                   "allocation is measured per family of inputs first and per input only when the family exceeds 64 MiB; harness allocations are included, which only makes the bound stricter",
                   "same domain restrictions as C03 for the types (no pointers to slice-kinded types, rep only on slices/maps, distinct field numbers)"])
